@@ -225,6 +225,121 @@ fn ob_c10_var_product_small_lo3(hi: u8, n: u8, ka: u8, a1: usize, a2: usize, x: 
 }
 
 // ---------------------------------------------------------------------------------------------
+// C10/C09/C05: the product for ALL usize bounds. CBMC cannot decide a symbolic 64x64-bit multiplier
+// (measured: no verdict in 25 min even when the harness multiplies the very same operands), so the two
+// multiplication primitives the real code uses (`usize::checked_mul`, `NonZeroUsize::checked_mul`) are
+// replaced (-Z stubbing) by an ORACLE: an arbitrary function constrained only by facts that hold of
+// multiplication (commutative, zero, one, >= each non-zero factor, monotone, strictly monotone) and
+// that is consistent across calls (memo table). What Kani proves then holds for every such function;
+// `C10.verus.lemma.mul-oracle-axioms` (Verus, nonlinear arithmetic) proves that the product of naturals
+// is one of them, and `C10.verus.lemma.sum_bounds` turns the interval ends into the depth of any
+// number of repetitions. Unchecked: that std's checked_mul returns Some(a * b) when representable
+// (T5); the overflow `expect` is the known finding C05.overflow-expect (the oracle never overflows).
+// ---------------------------------------------------------------------------------------------
+#[cfg(kani)]
+static mut MUL_MEMO: [(usize, usize, usize); 4] = [(0, 0, 0); 4];
+#[cfg(kani)]
+static mut MUL_USED: usize = 0;
+#[cfg(kani)]
+fn mul_oracle(a: usize, b: usize) -> usize {
+    let (a, b) = if a <= b { (a, b) } else { (b, a) };
+    // SAFETY: single-threaded verifier-only state.
+    unsafe {
+        let mut i = 0;
+        while i < MUL_USED {
+            if MUL_MEMO[i].0 == a && MUL_MEMO[i].1 == b {
+                return MUL_MEMO[i].2;
+            }
+            i += 1;
+        }
+        let r: usize = kani::any();
+        kani::assume(if a == 0 || b == 0 { r == 0 } else { r >= a && r >= b });
+        kani::assume(b != 1 || r == a);
+        kani::assume(a != 1 || r == b);
+        let mut j = 0;
+        while j < MUL_USED {
+            let (a2, b2, r2) = MUL_MEMO[j];
+            if a <= a2 && b <= b2 {
+                kani::assume(r <= r2);
+                if a != 0 && b != 0 && (a < a2 || b < b2) {
+                    kani::assume(r < r2);
+                }
+            }
+            if a2 <= a && b2 <= b {
+                kani::assume(r2 <= r);
+                if a2 != 0 && b2 != 0 && (a2 < a || b2 < b) {
+                    kani::assume(r2 < r);
+                }
+            }
+            j += 1;
+        }
+        // a full table only loses consistency between calls (an over-approximation)
+        if MUL_USED < 4 {
+            MUL_MEMO[MUL_USED] = (a, b, r);
+            MUL_USED += 1;
+        }
+        r
+    }
+}
+#[cfg(not(kani))]
+fn mul_oracle(a: usize, b: usize) -> usize {
+    a.wrapping_mul(b)
+}
+fn stub_usize_checked_mul(a: usize, b: usize) -> Option<usize> {
+    Some(mul_oracle(a, b))
+}
+fn stub_nz_checked_mul(a: NonZeroUsize, b: NonZeroUsize) -> Option<NonZeroUsize> {
+    NonZeroUsize::new(mul_oracle(a.get(), b.get()))
+}
+// interval ends of a depth variance: lowest member, highest member (None = no upper bound)
+fn lo_tv(k: u8, a: usize) -> usize {
+    match k {
+        0 | 2 | 4 => a,
+        _ => 0,
+    }
+}
+fn hi_tv(k: u8, a: usize, b: usize) -> Option<usize> {
+    match k {
+        0 | 3 => Some(a),
+        4 => a.checked_add(b),
+        _ => None,
+    }
+}
+
+//@ob C10.var.product.structure
+//@ props: C10 C09 C05
+//@ kind: complete
+//@ replay: none
+//@ unwind: 6
+//@ stub: usize::checked_mul=stub_usize_checked_mul
+//@ stub: core::num::NonZero::<usize>::checked_mul=stub_nz_checked_mul
+//@ fns: src/token/variance/mod.rs::TokenVariance::product src/token/variance/natural.rs::BoundedVariantRange::product src/token/variance/natural.rs::BoundedVariantRange::product<NonZeroUsize> src/token/variance/natural.rs::NaturalBound::product src/token/variance/natural.rs::NaturalRange::by_bound_with src/token/variance/natural.rs::NaturalRange::from_closed_and_open src/token/variance/natural.rs::Depth::product<VariantRange> src/token/variance/ops.rs::usize::product src/token/variance/ops.rs::NonZeroUsize::product
+//@ pre: ANY well-formed depth variance a (all five shapes, all usize bounds) and ANY ordered, non-degenerate repetition range [rl, ru] (T6); M = the multiplication oracle
+//@ post: every s with M(lo a, rl) <= s <= M(hi a, ru) (no upper end if either has none and the other is not zero) lies in gamma(a x r) -- with the two Verus lemmas: the depth of any permitted number of repetitions of any body the term describes is inside the reported bounds; the result has an upper bound EXACTLY when a bounded body is repeated a bounded number of times (no false 'always exhaustive', no hidden unbounded part); no panic, no unreachable arm
+fn ob_c10_var_product_structure(ka: u8, a1: usize, a2: usize, rl: usize, bounded: bool, ru: usize, s: usize) {
+    vassume!(ka <= 4 && valid_tv(ka, a1, a2));
+    vassume!(!bounded || (rl <= ru && ru != 0));
+    let ru = if bounded { Some(ru) } else { None };
+    let a: TV = mk_tv(ka, a1, a2);
+    let r = NaturalRange::from_closed_and_open(rl, ru);
+    let (la, ha) = (lo_tv(ka, a1), hi_tv(ka, a1, a2));
+    let p = ops::product(a, r);
+    let lo = mul_oracle(la, rl);
+    let hi: Option<usize> = match (ha, ru) {
+        (Some(0), _) => Some(0),
+        (Some(h), Some(u)) => Some(mul_oracle(h, u)),
+        _ => None,
+    };
+    vassume!(lo <= s && hi.map_or(true, |h| s <= h));
+    vcover!(ka == 4 && bounded && rl > 1 && rl < ru.unwrap());
+    vcover!(ka == 0 && !bounded);
+    vcover!(ka == 3 && rl == 0);
+    vcover!(ka == 2 && bounded);
+    assert!(mem(&p, s as u128), "C10 a x r contains [lo(a) * lo(r), hi(a) * hi(r)]");
+    assert!(p.has_upper_bound() == hi.is_some(), "C09 a repetition is depth-bounded exactly when a bounded body is repeated a bounded number of times");
+}
+
+// ---------------------------------------------------------------------------------------------
 // C09: the exhaustiveness verdict is "the depth has no upper bound", so the algebra must not LOSE an
 // upper bound (an over-approximation that is harmless for C10 turns into a false 'always' for C09)
 // ---------------------------------------------------------------------------------------------
